@@ -271,6 +271,27 @@ func vfC14eval(c *vfC14Case) error {
 	} else if err == nil && !bytes.Equal(meta, metaRaw) {
 		return fmt.Errorf("[getTransactionAndMetaFromNode] fault %q on frame %d of %d: returned metadata different from the original instead of an error", c.Fault, c.FaultA, c.Frames)
 	}
+	// path 2b: parseTransactionAndMetaFromNode - what getTransaction / getBlock / getSignaturesForAddress use over
+	// JSON-RPC (the metadata comes back parsed). Judged when the original payload is parseable metadata.
+	if metaRaw != nil {
+		n2b := 0
+		_, parsed, perr := parseTransactionAndMetaFromNode(&txNode, vfC14getter(fr, &n2b))
+		pm, _ := parsed.(*confirmed_block.TransactionStatusMeta)
+		var orig confirmed_block.TransactionStatusMeta
+		if proto.Unmarshal(metaRaw, &orig) == nil {
+			same := pm != nil && proto.Equal(pm, &orig)
+			if c.Fault == "" {
+				if perr != nil {
+					return fmt.Errorf("[parseTransactionAndMetaFromNode] intact payload rejected: %v", perr)
+				}
+				if !same {
+					return fmt.Errorf("[parseTransactionAndMetaFromNode] intact %d-frame payload: the parsed metadata differs from the original (nil=%v)", c.Frames, pm == nil)
+				}
+			} else if perr == nil && !same {
+				return fmt.Errorf("[parseTransactionAndMetaFromNode] fault %q on frame %d of %d: no error, and the metadata returned is not the original (nil=%v)", c.Fault, c.FaultA, c.Frames, pm == nil)
+			}
+		}
+	}
 	// path 3: accum.ObjectsToTransactionsAndMetadata - frames delivered as the CAR objects preceding the transaction
 	txRaw, err := ipld.Marshal(dagcbor.Encode, &txNode, ipldbindcode.Prototypes.Transaction.Type())
 	if err != nil {
